@@ -46,7 +46,8 @@ ASSUMPTIONS = [
     "are not mixed with lengths; the 13 alternative spellings of wt%/vol% in the code are not documented and not generated",
     "cases the documentation leaves open are skipped and counted: zero quantity of a material whose density is "
     "unknown, percentages whose exact remainder is in (0, 1e-6) or exactly 0 with non-integer percentages "
-    "(float rounding of '100 - sum' decides), all-zero absolute quantities",
+    "(float rounding of '100 - sum' decides), a repeated group whose quantities are all zero; a list of absolute "
+    "quantities that are all zero is not generated (the first is made 1)",
     "tolerance: rel 1e-11 on normalised counts and density, plus 4*n*100*2^-52/remainder for every percentage "
     "node (the implementation computes the remainder as 100 - sum in doubles); total_mass/thickness rel 1e-12",
 ]
@@ -97,25 +98,10 @@ def qty(lo=-8, hi=3, zero=False):
     plain = st.integers(1, 100).map(str)
     wide = st.tuples(st.integers(1, 9999), st.integers(lo, hi), st.booleans(), st.sampled_from(["", "", "."])).map(
         lambda t: spell(Decimal(t[0]).scaleb(t[1]), t[2], t[3]))
-    alts = [plain, wide, wide]
+    alts = [plain, wide, wide, wide, plain, wide, wide, wide, wide]
     if zero:
         alts.append(st.sampled_from(["0.", "0.0", ".0", "0.00"]))
     return st.one_of(*alts)
-
-
-def percents(n):
-    """n percentage spellings with sum <= 100 (scaled down by powers of ten until it fits)."""
-    one = st.one_of(st.integers(1, 60).map(str), qty(-6, -2, zero=True), qty(-3, -2),
-                    st.sampled_from(["50", "10", "25", "33.3", "99", "0.5", ".1", "12.5"]))
-
-    def fit(qs):
-        qs = list(qs)
-        for _ in range(12):
-            if sum(Fraction(q) for q in qs) <= 100:
-                break
-            qs = [spell(Decimal(q).scaleb(-1), False, "") if Fraction(q) != 0 else q for q in qs]
-        return qs
-    return st.lists(one, min_size=n, max_size=n).map(fit)
 
 
 def single_atom(pool):
@@ -127,9 +113,29 @@ def dtag():
     return st.tuples(fa.count_str(allow_none=False, max_int=25), st.sampled_from(["", "", "n", "i"])).map(list)
 
 
-def compound_part(E, dense, depth=2):
+def gtag():
+    return st.tuples(fa.count_str(allow_none=False, max_int=25), st.sampled_from(["n", "n", "", "i"])).map(list)
+
+
+# Strategies are built once per (dense, depth, width) and never inside flatmap:
+# building a strategy per draw costs far more than the draw.
+_MEMO = {}
+
+
+def memo(fn):
+    def wrapped(*args):
+        key = (fn.__name__,) + args
+        if key not in _MEMO:
+            _MEMO[key] = fn(*args)
+        return _MEMO[key]
+    return wrapped
+
+
+@memo
+def compound_part(dense):
     """A compound; *dense*: its density is almost always known."""
-    body = fa.compound(E["pool"], depth=depth, max_groups=3, max_atoms=3, density=False)
+    E = env()
+    body = fa.compound(E["pool"], depth=2, max_groups=3, max_atoms=3, density=False)
     tagged = st.tuples(body, dtag()).map(lambda t: dict(t[0], d=t[1]))
     if dense:
         alts = [single_atom(E["dense_pool"])] * 3 + [tagged] * 3 + [single_atom(E["pool"])]
@@ -138,60 +144,100 @@ def compound_part(E, dense, depth=2):
     return st.one_of(*alts).map(lambda t: ["c", t])
 
 
-def _pads():
-    return st.sampled_from([["", ""], ["", ""], ["", ""], [" ", " "], [" ", ""], ["", " "]])
+PADS = [["", ""], ["", ""], ["", ""], [" ", " "], [" ", ""], ["", " "]]
 
 
 def _seps(n):
-    return st.lists(st.sampled_from(SEPS), min_size=max(n, 0), max_size=max(n, 0))
+    return st.lists(st.sampled_from(SEPS), min_size=n, max_size=n)
 
 
-def part(E, dense, depth, width):
+@memo
+def part(dense, depth, width):
     if depth <= 0:
-        return compound_part(E, dense)
-    grouped = st.tuples(mix(E, dense, depth - 1, width), st.one_of(st.none(), st.none(), dtag()), _pads()).map(
+        return compound_part(dense)
+    grouped = st.tuples(mix(dense, depth - 1, width), st.one_of(st.none(), dtag(), gtag()), st.sampled_from(PADS)).map(
         lambda t: ["g", t[0], t[1], t[2]])
-    return st.one_of(compound_part(E, dense), compound_part(E, dense), grouped)
+    return st.one_of(compound_part(dense), compound_part(dense), grouped)
 
 
-def pct_mix(E, dense, depth, width):
-    def mk(n):
-        return st.tuples(st.sampled_from(["w", "v"]) if dense else st.sampled_from(["w", "w", "w", "v"]),
-                         percents(n - 1),
-                         st.lists(part(E, dense, depth, max(2, width - 1)), min_size=n, max_size=n),
-                         st.lists(st.tuples(st.booleans(), st.sampled_from([False, False, True])).map(list),
-                                  min_size=n - 1, max_size=n - 1),
-                         _seps(n - 1)).map(lambda t: ["p"] + list(t))
-    return st.integers(2, max(2, width)).flatmap(mk)
+def fit_percents(qs):
+    """scale the percentages down by powers of ten until their sum is <= 100"""
+    qs = list(qs)
+    for _ in range(12):
+        if sum(Fraction(q) for q in qs) <= 100:
+            break
+        qs = [spell(Decimal(q).scaleb(-1), False, "") if Fraction(q) != 0 else q for q in qs]
+    return qs
 
 
-def unit_item(E, dense, depth, width, units):
-    return st.tuples(qty(zero=True), st.sampled_from(units), st.booleans(), part(E, dense, depth, width)).map(
+@memo
+def pct_mix(dense, depth, width):
+    width = max(2, width)
+    one = st.one_of(st.integers(1, 60).map(str), qty(-6, -2, zero=True), qty(-3, -2),
+                    st.sampled_from(["50", "10", "25", "33.3", "99", "0.5", ".1", "12.5"]))
+
+    def mk(t):
+        by, parts, qs, mode, fmt, seps = t
+        n = len(parts)
+        qs = qs[:n - 1]
+        mode = {7: 0, 13: 1}.get(mode, 2)
+        if mode == 1:
+            # integer percentages adding up to exactly 100: the last part gets nothing
+            ints = [max(1, int(Fraction(q)) % 40) for q in qs]
+            ints[-1] = 100 - sum(ints[:-1]) if sum(ints[:-1]) < 100 else 1
+            qs = [str(v) for v in ints]
+        if mode != 0:
+            qs = fit_percents(qs)
+        else:
+            # percentages above 100 must be refused
+            for _ in range(12):
+                if sum(Fraction(q) for q in qs) > 101:
+                    break
+                qs = [spell(Decimal(q).scaleb(1), False, "") if Fraction(q) != 0 else "60" for q in qs]
+        return ["p", by, qs, parts, fmt[:n - 1], seps[:n - 1]]
+    return st.tuples(st.sampled_from(["w", "v"]) if dense else st.sampled_from(["w", "w", "w", "v"]),
+                     st.lists(part(dense, depth, max(2, width - 1)), min_size=2, max_size=width),
+                     st.lists(one, min_size=width - 1, max_size=width - 1),
+                     st.integers(0, 19),
+                     st.lists(st.tuples(st.booleans(), st.sampled_from([False, False, True])).map(list),
+                              min_size=width - 1, max_size=width - 1),
+                     _seps(width - 1)).map(mk)
+
+
+@memo
+def items(dense, depth, width, kind, rep_depth):
+    if kind == "l":
+        units = list(LEN_U)
+    else:
+        units = list(MASS_U) + list(VOL_U) if dense else list(MASS_U) * 2 + list(VOL_U)
+    u = st.tuples(qty(zero=True), st.sampled_from(units), st.booleans(), part(dense, depth, max(2, width - 1))).map(
         lambda t: ["u", t[0], t[1], t[2], t[3]])
-
-
-def items(E, dense, depth, width, units, rep_depth):
-    u = unit_item(E, dense, depth, max(2, width - 1), units)
     if rep_depth > 0:
-        inner = items(E, dense, depth, max(2, width - 2), units, rep_depth - 1)
-        rep = st.tuples(inner, fa.count_str(allow_none=False, max_int=40), _pads()).map(
+        inner = items(dense, depth, max(2, width - 2), kind, rep_depth - 1)
+        rep = st.tuples(inner, fa.count_str(allow_none=False, max_int=40), st.sampled_from(PADS)).map(
             lambda t: ["r", t[0][0], t[0][1], t[1], t[2]])
         one = st.one_of(u, u, u, rep)
     else:
         one = u
-    return st.lists(one, min_size=1, max_size=width).flatmap(
-        lambda its: _seps(len(its) - 1).map(lambda ss: (its, ss)))
+    def fix(t):
+        its, seps = t
+        if all(it[0] == "u" and Fraction(it[1]) == 0 for it in its):
+            # all-zero absolute quantities mean nothing: make the first one positive
+            its = [["u", "1"] + its[0][2:]] + its[1:]
+        return its, seps[:len(its) - 1]
+    return st.tuples(st.lists(one, min_size=1, max_size=width), _seps(width - 1)).map(fix)
 
 
-def qty_mix(E, dense, depth, width, rep_depth=2):
-    mu = list(MASS_U) + list(VOL_U) if dense else list(MASS_U) * 2 + list(VOL_U)
-    m = items(E, dense, depth, width, mu, rep_depth).map(lambda t: ["q", "m", t[0], t[1]])
-    l = items(E, dense, depth, width, list(LEN_U), rep_depth).map(lambda t: ["q", "l", t[0], t[1]])
+@memo
+def qty_mix(dense, depth, width):
+    m = items(dense, depth, width, "m", 2).map(lambda t: ["q", "m", t[0], t[1]])
+    l = items(dense, depth, width, "l", 2).map(lambda t: ["q", "l", t[0], t[1]])
     return st.one_of(m, m, l) if dense else m
 
 
-def mix(E, dense, depth, width):
-    return st.one_of(pct_mix(E, dense, depth, width), qty_mix(E, dense, depth, width))
+@memo
+def mix(dense, depth, width):
+    return st.one_of(pct_mix(dense, depth, width), qty_mix(dense, depth, width))
 
 
 # ----------------------------------------------------------------------
@@ -379,6 +425,8 @@ def build_mix(E, T, m, kw=None):
     if m[0] == "p":
         _, by, qs, parts, _, _ = m
         vals = [Fraction(float(x)) for x in qs]
+        if sum(vals) > 100:
+            raise CannotBuild("percentages above 100 have no equivalent call")
         quant = [float(v) for v in vals] + [float(100 - sum(vals))]
         args = []
         for p, q in zip(parts, quant):
@@ -522,6 +570,47 @@ def units_in(m, first=True, out=None):
     return out
 
 
+def reject_feature(m, s, exc=None):
+    """Label for the bucket of a rejected valid string: which documented
+    feature it uses that is a known separate way of failing."""
+    import re
+    feats = []
+
+    def part(p):
+        if p[0] == "g":
+            walk(p[1])
+
+    def its(kind, items):
+        for it in items:
+            if it[0] == "u":
+                part(it[4])
+            else:
+                if kind == "l":
+                    feats.append("repeated-layer-group")
+                its(kind, it[1])
+
+    def walk(m):
+        if m[0] == "p":
+            for k, p in enumerate(m[3]):
+                if 1 <= k < len(m[2]) and not m[4][k][1] and render_part(p)[:1] in "0123456789.":
+                    feats.append("bare-percent-before-leading-count")
+                part(p)
+        else:
+            its(m[1], m[2])
+    walk(m)
+    if re.search(r"(?:^|[(])[ (]*[0-9.]+ ?L ", s):
+        feats.append("unit-L-first")
+    # the exception tells which of the features present is the one that failed
+    hint = {"AttributeError": "repeated-layer-group", "ValueError": "unit-L-first",
+            "ParseException": "bare-percent-before-leading-count"}.get(type(exc).__name__ if exc is not None else "")
+    if hint in feats:
+        return hint
+    for f in ("unit-L-first", "repeated-layer-group", "bare-percent-before-leading-count"):
+        if f in feats:
+            return f
+    return "other"
+
+
 # ----------------------------------------------------------------------
 def check_string(ctx, value):
     E = env()
@@ -555,7 +644,7 @@ def check_string(ctx, value):
         if ref.errors:
             return
         fr = lib_frame(e.__traceback__) or "?"
-        raise Violation("c11:string-rejected:%s:%s" % (type(e).__name__, fr),
+        raise Violation("c11:string-rejected:%s:%s:%s" % (reject_feature(m, s, e), type(e).__name__, fr),
                         "%r raised %s: %s" % (s, type(e).__name__, str(e)[:200]), case)
     if ref.errors:
         raise Violation("c11:%s:accepted" % ref.errors[0],
@@ -598,6 +687,9 @@ def check_api(ctx, value):
     comp, rho = (ref._mixw if by == "w" else ref._mixv)(trip)
     if ref.ambiguous:
         ctx.count("skipped:" + ref.ambiguous[0])
+        return
+    if not comp and ("density" in value["kw"] or "natural_density" in value["kw"]):
+        ctx.count("skipped:density keyword on an empty mixture")
         return
     strings = [render_part(p) if p[0] == "c" else render_mix(p[1]) for p in parts]
     nested = any(p[0] == "g" for p in parts)
@@ -642,15 +734,26 @@ def check_api(ctx, value):
         tag = "api-%s" % ("weight" if by == "w" else "volume") + ("" if scale is None else ":rescaled-unit")
         try:
             f = make(scale)
+        except CannotBuild:
+            # a nested component needs a volume of a material of unknown density
+            continue
         except Exception as e:  # noqa
             fr = lib_frame(e.__traceback__)
             if fr is None:
                 raise
-            if ref.errors:
-                if not isinstance(e, ValueError):
-                    raise Violation("c11:%s:%s" % (ref.errors[0], type(e).__name__),
-                                    "documented ValueError, got %s: %s" % (type(e).__name__, e), case)
+            if ref.errors and isinstance(e, ValueError):
                 continue
+            # a component given as a mixture string may be rejected for one of
+            # the reasons a string case is: same event, same bucket
+            for k, p in enumerate(parts):
+                if p[0] == "g":
+                    feat = reject_feature(p[1], strings[k], e)
+                    if feat != "other":
+                        raise Violation("c11:string-rejected:%s:%s:%s" % (feat, type(e).__name__, fr),
+                                        "component %r raised %s: %s" % (strings[k], type(e).__name__, str(e)[:200]), case)
+            if ref.errors:
+                raise Violation("c11:%s:%s" % (ref.errors[0], type(e).__name__),
+                                "documented ValueError, got %s: %s" % (type(e).__name__, e), case)
             raise Violation("c11:%s:%s:%s" % (tag, type(e).__name__, fr), "%s: %s" % (type(e).__name__, str(e)[:200]), case)
         if ref.errors:
             raise Violation("c11:%s:accepted" % ref.errors[0], "call must raise ValueError but gave %r" % (f.structure,), case)
@@ -660,26 +763,31 @@ def check_api(ctx, value):
                 want_rho = Fraction(kw["density"])
             elif "natural_density" in kw:
                 want_rho = Fraction(kw["natural_density"]) / rc.natural_ratio(T, comp, E["emass"])
-        elif "density" in kw or "natural_density" in kw:
-            # an empty mixture with a density keyword: nothing to compare it with
-            want_rho = None if f.density is None else Fraction(f.density)
         compare(f, comp, want_rho, T, tol, tag, case)
         if "name" in kw and f.name != kw["name"]:
             raise Violation("c11:%s:name" % tag, "name %r expected %r" % (f.name, kw["name"]), case)
 
 
 # ----------------------------------------------------------------------
-def string_strategy(E, depth, width):
-    m = st.one_of(mix(E, True, depth, width), mix(E, True, depth, width), mix(E, False, depth, width))
-    return st.fixed_dictionaries({"mix": m, "table": st.sampled_from(["public", "public", "private"])})
+def short_repr(strategy, name):
+    """The same strategy behind a composite: the repr of the nested strategy
+    objects (which Hypothesis builds when it reports a failure) is megabytes long."""
+    def wrapped(draw):
+        return draw(strategy)
+    wrapped.__name__ = name
+    return st.composite(wrapped)()
 
 
-def api_strategy(E, depth):
-    def q():
-        e = st.tuples(st.integers(1, 9999), st.integers(-8, 3)).map(lambda t: "%de%d" % t)
-        return st.one_of(st.integers(1, 100).map(str), e, e, st.sampled_from(["0", "0.0"]),
-                         st.floats(1e-6, 1e6, allow_nan=False).map(repr))
+def string_strategy(depth, width):
+    m = st.one_of(mix(True, depth, width), mix(True, depth, width), mix(False, depth, width))
+    return short_repr(st.fixed_dictionaries({"mix": m, "table": st.sampled_from(["public", "public", "private"])}),
+                      "mixture_strings_%d_%d" % (depth, width))
 
+
+def api_strategy(depth):
+    e = st.tuples(st.integers(1, 9999), st.integers(-8, 3)).map(lambda t: "%de%d" % t)
+    q = st.one_of(st.integers(1, 100).map(str), e, e, st.sampled_from(["0", "0.0"]),
+                  st.floats(1e-6, 1e6, allow_nan=False).map(repr))
     kw = st.one_of(
         st.just({}), st.just({}),
         st.fixed_dictionaries({"density": st.floats(0.01, 30)}),
@@ -687,44 +795,87 @@ def api_strategy(E, depth):
         st.fixed_dictionaries({"name": st.sampled_from(["mix", "solution 1", "x"])}),
         st.fixed_dictionaries({"name": st.just("alloy"), "density": st.floats(0.01, 30)}))
 
-    def mk(n):
-        def one(dense):
-            return st.fixed_dictionaries({
-                "by": st.sampled_from(["w", "v"]) if dense else st.sampled_from(["w", "w", "v"]),
-                "parts": st.lists(part(E, dense, depth, 3), min_size=n, max_size=n),
-                "q": st.lists(q(), min_size=n, max_size=n),
-                "as": st.lists(st.sampled_from(["str", "obj"]), min_size=n, max_size=n),
-                "kw": kw,
-                "table": st.sampled_from(["public", "public", "private"]),
-                "pass_table": st.booleans(),
-                "scale": st.tuples(st.integers(0, 5), st.one_of(st.integers(2, 50), st.floats(1e-3, 1e3))).map(list),
-            })
-        return st.one_of(one(True), one(True), one(False))
-    return st.integers(1, 6).flatmap(mk)
+    def one(dense):
+        def cut(d):
+            n = len(d["parts"])
+            d["q"] = d["q"][:n]
+            d["as"] = d["as"][:n]
+            return d
+        return st.fixed_dictionaries({
+            "by": st.sampled_from(["w", "v"]) if dense else st.sampled_from(["w", "w", "v"]),
+            "parts": st.lists(part(dense, depth, 3), min_size=1, max_size=6),
+            "q": st.lists(q, min_size=6, max_size=6),
+            "as": st.lists(st.sampled_from(["str", "obj"]), min_size=6, max_size=6),
+            "kw": kw,
+            "table": st.sampled_from(["public", "public", "private"]),
+            "pass_table": st.booleans(),
+            "scale": st.tuples(st.integers(0, 5), st.one_of(st.integers(2, 50), st.floats(1e-3, 1e3))).map(list),
+        }).map(cut)
+    return short_repr(st.one_of(one(True), one(True), one(False)), "mixture_calls_%d" % depth)
 
 
 def task_strings(ctx, n, depth, width):
-    E = env()
-    ctx.search("strings", string_strategy(E, depth, width), check_string, n)
+    env()
+    ctx.search("strings", string_strategy(depth, width), check_string, n)
 
 
 def task_api(ctx, n, depth):
-    E = env()
-    ctx.search("api", api_strategy(E, depth), check_api, n)
+    env()
+    ctx.search("api", api_strategy(depth), check_api, n)
+
+
+def _tree(atoms, d=None, lead=None):
+    return {"g": [["i", lead, [["a", [sym, iso, ch], False, cnt] for sym, iso, ch, cnt in atoms]]], "s": [], "d": d}
+
+
+def task_unit_sweep(ctx):
+    """Every unit in every position: first token of the string, later part,
+    first token inside a parenthesised mixture, inside a repeated group; with
+    and without a blank between count and unit.  (Deterministic.)"""
+    A = ["c", _tree([("Fe", 0, 0, None)])]
+    B = ["c", _tree([("H", 0, 0, "2"), ("O", 0, 0, None)], ["1", ""])]
+    C = ["c", _tree([("Na", 0, 1, None), ("Cl", 0, -1, None)], ["2.16", "i"])]
+    Dn = ["c", _tree([("D", 0, 0, "2"), ("O", 18, 0, None)], ["1.1", "n"], "2")]
+    qs = ["5", "0.25", "12.", "300", ".5", "7.5"]
+    k = 0
+    for kind, units in (("m", list(MASS_U) + list(VOL_U)), ("l", list(LEN_U))):
+        for u in units:
+            for v in units:
+                for sp in (False, True):
+                    k += 1
+                    q = [qs[(k + j) % len(qs)] for j in range(4)]
+                    shapes = [
+                        ["q", kind, [["u", q[0], u, sp, A], ["u", q[1], v, not sp, B]], [" // "]],
+                        ["q", kind, [["u", q[0], u, sp, ["g", ["q", kind, [["u", q[1], v, sp, B], ["u", q[2], u, sp, C]], ["//"]],
+                                                          None, ["", ""]]],
+                                     ["u", q[3], v, sp, Dn]], [" // "]],
+                        ["q", kind, [["r", [["u", q[0], u, sp, A], ["u", q[1], v, sp, B]], [" // "], "3", ["", ""]],
+                                     ["u", q[2], v, sp, C]], [" // "]],
+                        ["p", "w" if k % 2 else "v", ["20"],
+                         [["g", ["q", kind, [["u", q[0], u, sp, B], ["u", q[1], v, sp, Dn]], [" // "]], ["1.05", ["", "n", "i"][k % 3]], ["", ""]], A],
+                         [[sp, False]], [" // "]],
+                    ]
+                    for m in shapes:
+                        ctx.check(check_string, {"mix": m, "table": "private" if k % 3 == 0 else "public"})
 
 
 def tasks(tier):
     if tier == "quick":
-        return [("strings-a", task_strings, dict(n=700, depth=1, width=6)),
-                ("strings-b", task_strings, dict(n=700, depth=2, width=4)),
-                ("strings-c", task_strings, dict(n=700, depth=1, width=4)),
-                ("api-a", task_api, dict(n=1000, depth=1)),
-                ("api-b", task_api, dict(n=1000, depth=2))]
+        return [("strings-a", task_strings, dict(n=500, depth=1, width=6)),
+                ("strings-b", task_strings, dict(n=500, depth=2, width=4)),
+                ("strings-c", task_strings, dict(n=500, depth=1, width=4)),
+                ("strings-d", task_strings, dict(n=500, depth=0, width=6)),
+                ("unit-sweep", task_unit_sweep, dict()),
+                ("api-a", task_api, dict(n=500, depth=1)),
+                ("api-b", task_api, dict(n=500, depth=2)),
+                ("api-c", task_api, dict(n=500, depth=0)),
+                ("api-d", task_api, dict(n=500, depth=1))]
     out = []
-    for k in range(9):
-        out.append(("strings-%d" % k, task_strings, dict(n=20000, depth=1 + k % 3, width=6 if k % 3 == 0 else 4)))
+    for k in range(8):
+        out.append(("strings-%d" % k, task_strings, dict(n=6000, depth=1 + k % 3, width=6 if k % 3 == 0 else 4)))
     for k in range(7):
-        out.append(("api-%d" % k, task_api, dict(n=20000, depth=k % 3)))
+        out.append(("api-%d" % k, task_api, dict(n=6000, depth=k % 3)))
+    out.append(("unit-sweep", task_unit_sweep, dict()))
     return out
 
 
